@@ -427,7 +427,7 @@ def apply_ic(b, units=None):
         pos, spd = dict(pos, v=_np.float64(pos['v'])), dict(spd, v=_np.float64(spd['v']))
     b.last.angular_position = mkq(pos)
     via = ic.get('angle_pos')
-    if via and pos['v'] >= 0:
+    if via and pos['v'] >= 0 and not b.spec.get('rules'):          # rules compute with the encoder reading (negative factors: Angle refuses)
         # the initial position is handed over as an Angle (a legal AngularPosition) that was converted in place before
         obj = g().un.Angle(SI.convert('Angle', float(pos['v']), pos['u'], via), via) if via != pos['u'] else g().un.Angle(pos['v'], via)
         obj.to(pos['u'], inplace=True)
@@ -635,6 +635,8 @@ def run_schedule(b, on_capture=None):
                              stop_condition=stop)
             except Exception as ex:          # recorded, judged by the monitors
                 rec['exc'] = (type(ex).__name__, str(ex)[:200])
+                if __import__('os').environ.get('VERIF_TRACE'):
+                    import traceback; traceback.print_exc()
             # the quantities handed to run() are the caller's: they come back as they were
             for name_, (o_, v_, u_) in zip(('time_discretization', 'simulation_time'), given_):
                 if o_.value != v_ or o_.unit != u_:
